@@ -143,12 +143,7 @@ static int remoteNext(MPT_INTERFACE(input) *in, int what)
 			mpt_log(0, __func__, MPT_LOG(Error), "%s: %s",
 			        MPT_tr("receive failed"), MPT_tr("unable to get new data"));
 		}
-		/* message size invalid */
-		else if (ret < od->con.out._idlen) {
-			mpt_log(0, __func__, MPT_LOG(Error), "%s: %s: %d < %d",
-			        MPT_tr("bad message size"), MPT_tr("messag smaller than id"),
-			        ret, od->con.out._idlen);
-		}
+		/* (a datagram smaller than the id is refused by mpt_outdata_recv) */
 		/* save input parameters */
 		else {
 			keep = POLLIN;
